@@ -245,7 +245,123 @@ pub fn plan(tier: Tier) -> Vec<Phase> {
         Phase { name: "large-files", count: large, exhaustive: false },
         Phase { name: "long-runs", count: runs, exhaustive: false },
         Phase { name: "unicode-heavy", count: unicode, exhaustive: false },
+        Phase { name: "keyword-splices", count: multi, exhaustive: false },
     ]
+}
+
+/// Dictionary of the `keyword-splices` phase, per format family: the string literals of the parser sources
+/// of the tree under test (so that a keyword a change introduces is in the dictionary of the very run that
+/// checks that change) plus keywords of the formats as they occur in the wild. Sorted, hence the same in the
+/// parent and in every worker; replay files carry the spliced bytes themselves and do not need it.
+fn dictionary(family: &str) -> &'static Vec<Vec<u8>> {
+    static DICT: OnceLock<Vec<(String, Vec<Vec<u8>>)>> = OnceLock::new();
+    let all = DICT.get_or_init(|| {
+        let wild: &[&str] = &[
+            "AC", "ID", "NA", "DE", "DT", "CO", "BF", "BA", "BS", "CC", "RN", "RX", "RA", "RT", "RL", "DR", "OS", "OC", "SF", "ST", "SD", "HP", "HC", "TY", "VV", "XX", "//", "P0", "PO", "PE",
+            "PUBMED: ", "MEDLINE; ", "DOI: ", "EMBL; ", "TRANSFAC: ", "TRANSCOMPEL: ", "JASPAR: ", "PRODORIC: ", "created", "updated", "A:", "C:", "G:", "T:", "N:", "X:", "#", ">", "[", "]", "|", "=", "Motif", "letter-probability matrix:",
+            "MOTIF", "ALPHABET=", "alength=", "w=", "nsites=", "E=", "URL", "inf", "nan", "NaN", "-inf", "1e400", "-0", "+5", "0x10", "1_000",
+        ];
+        let mut out = Vec::new();
+        for fam in ["jaspar", "jaspar16", "transfac", "uniprobe"] {
+            let mut v: Vec<Vec<u8>> = wild.iter().map(|w| w.as_bytes().to_vec()).collect();
+            let mut files: Vec<std::path::PathBuf> = Vec::new();
+            for dir in [format!("/repo/lightmotif-io/src/{}", fam), "/repo/lightmotif-io/src".to_string()] {
+                if let Ok(rd) = std::fs::read_dir(&dir) {
+                    for e in rd.flatten() {
+                        let p = e.path();
+                        if p.extension().map(|x| x == "rs").unwrap_or(false) {
+                            files.push(p);
+                        }
+                    }
+                }
+            }
+            files.sort();
+            for f in files {
+                if let Ok(src) = std::fs::read(&f) {
+                    v.extend(string_literals(&src));
+                }
+            }
+            v.sort();
+            v.dedup();
+            out.push((fam.to_string(), v));
+        }
+        out
+    });
+    &all.iter().find(|(f, _)| f == family).unwrap_or(&all[0]).1
+}
+
+/// String, byte-string and char literals (1..=16 bytes after unescaping the common escapes, no `{`) of a
+/// Rust source text. A plain scanner, good enough for harvesting keywords.
+fn string_literals(src: &[u8]) -> Vec<Vec<u8>> {
+    let mut out = Vec::new();
+    let mut i = 0;
+    while i < src.len() {
+        let q = src[i];
+        if q == b'/' && src.get(i + 1) == Some(&b'/') {
+            while i < src.len() && src[i] != b'\n' {
+                i += 1;
+            }
+            continue;
+        }
+        if q == b'"' || q == b'\'' {
+            let mut j = i + 1;
+            let mut lit = Vec::new();
+            let mut closed = false;
+            while j < src.len() && lit.len() <= 40 {
+                let b = src[j];
+                if b == b'\\' && j + 1 < src.len() {
+                    lit.push(match src[j + 1] {
+                        b'n' => b'\n',
+                        b't' => b'\t',
+                        b'r' => b'\r',
+                        b'0' => 0,
+                        other => other,
+                    });
+                    j += 2;
+                    continue;
+                }
+                if b == q {
+                    closed = true;
+                    break;
+                }
+                if b == b'\n' && q == b'\'' {
+                    break;
+                }
+                lit.push(b);
+                j += 1;
+            }
+            if closed && !lit.is_empty() && lit.len() <= 16 && !lit.contains(&b'{') && (q == b'"' || lit.len() <= 4) {
+                out.push(lit);
+                i = j + 1;
+            } else if closed && q == b'"' {
+                i = j + 1;
+            } else {
+                i += 1; // a lifetime tick or an over-long literal: move on
+            }
+            continue;
+        }
+        i += 1;
+    }
+    out
+}
+
+/// Maximal runs of "word" bytes (alphanumerics, `_`, `.`, `-`, `+`) in a line: (start, end).
+fn words_of(line: &[u8]) -> Vec<(usize, usize)> {
+    let is_w = |b: u8| b.is_ascii_alphanumeric() || b == b'_' || b == b'.' || b == b'-' || b == b'+' || b >= 0x80;
+    let mut v = Vec::new();
+    let mut i = 0;
+    while i < line.len() {
+        if is_w(line[i]) {
+            let s = i;
+            while i < line.len() && is_w(line[i]) {
+                i += 1;
+            }
+            v.push((s, i));
+        } else {
+            i += 1;
+        }
+    }
+    v
 }
 
 fn schedule(which: u64, r: &mut Prng, len: usize) -> Transport {
@@ -431,6 +547,123 @@ pub fn generate(tier: Tier, phase: &str, idx: u64, r: &mut Prng) -> Sc {
                     format: f.format,
                     data: Blob(data),
                     origin: format!("{}:multi:{}", f.name, kinds.join("+")),
+                },
+                transport,
+            }
+        }
+        "keyword-splices" => {
+            // Structure-level faults a byte-level enumeration does not reach: whole keywords (harvested from
+            // the parser sources of the tree under test and from the formats as they occur in the wild)
+            // spliced into valid files - a word of a line replaced, a line cloned with one word replaced, a
+            // new line made of a keyword followed by the tail of another line or by as many small numbers as
+            // a neighbouring row has fields; numbers replaced by boundary labels (0, 1, width, width + 1, -1).
+            let f = &c.files[r.usize_below(c.files.len())];
+            let dict = dictionary(f.format.family());
+            let mut lines: Vec<Vec<u8>> = f.data.split_inclusive(|&b| b == b'\n').map(|l| l.to_vec()).collect();
+            let n_mut = r.range(1, 3);
+            let mut kinds = Vec::new();
+            for _ in 0..n_mut {
+                if lines.is_empty() || dict.is_empty() {
+                    break;
+                }
+                let li = r.usize_below(lines.len());
+                let body_len = |l: &Vec<u8>| l.iter().rposition(|&b| b != b'\n' && b != b'\r').map(|p| p + 1).unwrap_or(0);
+                match r.below(6) {
+                    0 | 1 => {
+                        // replace one word (optionally together with the separator run after it); half of
+                        // the time in a clone of the line placed right after it
+                        let clone = r.chance(1, 2);
+                        let mut line = lines[li].clone();
+                        let ws = words_of(&line[..body_len(&line)]);
+                        if ws.is_empty() {
+                            continue;
+                        }
+                        let (a, mut b) = ws[r.usize_below(ws.len())];
+                        if r.chance(1, 2) {
+                            let end = body_len(&line);
+                            while b < end && !(line[b].is_ascii_alphanumeric()) {
+                                b += 1;
+                            }
+                        }
+                        let tok = r.pick(dict).clone();
+                        line.splice(a..b, tok);
+                        if clone {
+                            lines.insert(li + 1, line);
+                            kinds.push("clone+word");
+                        } else {
+                            lines[li] = line;
+                            kinds.push("word");
+                        }
+                    }
+                    2 => {
+                        // a new line: keyword + the tail of another line
+                        let src = lines[r.usize_below(lines.len())].clone();
+                        let ws = words_of(&src[..body_len(&src)]);
+                        let from = ws.first().map(|w| w.1).unwrap_or(0);
+                        let mut line = r.pick(dict).clone();
+                        line.extend_from_slice(&src[from..]);
+                        if !line.ends_with(b"\n") {
+                            line.push(b'\n');
+                        }
+                        lines.insert(li + r.usize_below(2), line);
+                        kinds.push("keyword+tail");
+                    }
+                    3 | 4 => {
+                        // a new line: keyword + as many small numbers as a nearby row has fields (+-1), with
+                        // that row's separator
+                        let near = (li..lines.len().min(li + 4)).map(|i| &lines[i]).find(|l| words_of(&l[..body_len(l)]).len() >= 3);
+                        let (fields, sep) = match near {
+                            Some(l) => {
+                                let ws = words_of(&l[..body_len(l)]);
+                                let sep = l[ws[ws.len() - 2].1..ws[ws.len() - 1].0].to_vec();
+                                (ws.len() - 1, sep)
+                            }
+                            None => (r.range(1, 6), b"\t".to_vec()),
+                        };
+                        let k = match r.below(4) {
+                            0 => fields + 1,
+                            1 => fields.saturating_sub(1),
+                            _ => fields,
+                        };
+                        let base: i64 = *r.pick(&[0i64, 0, 1, 1, 2, fields as i64, -1]);
+                        let mut line = r.pick(dict).clone();
+                        for j in 0..k {
+                            line.extend_from_slice(&sep);
+                            let v = if r.chance(1, 6) { *r.pick(&[0i64, -1, fields as i64 + 1, 255, 256, 65_536, i64::MAX]) } else { base + j as i64 };
+                            line.extend_from_slice(v.to_string().as_bytes());
+                        }
+                        line.push(b'\n');
+                        lines.insert(li + r.usize_below(2), line);
+                        kinds.push("keyword+numbers");
+                    }
+                    _ => {
+                        // a number becomes a boundary label
+                        let mut line = lines[li].clone();
+                        let ws: Vec<(usize, usize)> = words_of(&line[..body_len(&line)]).into_iter().filter(|&(a, b)| line[a..b].iter().all(|c| c.is_ascii_digit() || *c == b'.')).collect();
+                        if ws.is_empty() {
+                            continue;
+                        }
+                        let (a, b) = ws[r.usize_below(ws.len())];
+                        let width = ws.len() as i64;
+                        let v = *r.pick(&[0i64, 1, -1, width, width + 1, 255, 256, 4_294_967_295, 4_294_967_296]);
+                        line.splice(a..b, v.to_string().into_bytes());
+                        lines[li] = line;
+                        kinds.push("label");
+                    }
+                }
+            }
+            let data = lines.concat();
+            let len = data.len();
+            let class = r.below(96);
+            let mut transport = gen::gen_transport(r, &data, class);
+            if r.chance(1, 8) {
+                transport.truncate = Some(r.usize_below(len + 1));
+            }
+            Sc {
+                input: Input::Bytes {
+                    format: f.format,
+                    data: Blob(data),
+                    origin: format!("{}:splice:{}", f.name, kinds.join("+")),
                 },
                 transport,
             }
